@@ -457,29 +457,31 @@ MODULES = {
     'C01': ['C01', 'C01Attr', 'C01Sat', 'C01Ns', 'C01Has', 'C01Parse'],
     'C02': ['C02', 'C02Site', 'C02Parse'],
     'C03': ['C03', 'C03Wrappers'],
+    'C05': ['C05', 'C05Parse'],
     'C07': ['C07', 'C07Parse'],
     'C09': ['C09', 'C09Rx', 'C09Compile', 'C09Compile2'],
-    'C10': ['C10', 'C10Rx'],
+    'C10': ['C10', 'C10Rx', 'C10Parse'],
     'C12': ['C12', 'C12Parse'],
     'C13': ['C13', 'C13Rx', 'C13Parse'],
-    'C17': ['C17', 'C17Dir'],
+    'C17': ['C17', 'C17Dir', 'C17Parse'],
     'C18': ['C18', 'C18Range', 'C18Rx'],
-    'C19': ['C19', 'C19Rx'],
-    'C20': ['C20', 'C20Rx'],
+    'C19': ['C19', 'C19Rx', 'C19Parse'],
+    'C20': ['C20', 'C20Rx', 'C20Parse'],
 }
 AUDITS = {
     'C01': ['C01', 'C01Attr', 'C01Sat', 'C01Has', 'C01Parse'],
     'C02': ['C02', 'C02Site', 'C02Parse'],
     'C03': ['C03', 'C03Wrappers'],
+    'C05': ['C05', 'C05Parse'],
     'C07': ['C07', 'C07Parse'],
     'C09': ['C09', 'C09Rx', 'C09Compile', 'C09Compile2'],
-    'C10': ['C10', 'C10Rx'],
+    'C10': ['C10', 'C10Rx', 'C10Parse'],
     'C12': ['C12', 'C12Parse'],
     'C13': ['C13', 'C13Rx', 'C13Parse'],
-    'C17': ['C17', 'C17Dir'],
+    'C17': ['C17', 'C17Dir', 'C17Parse'],
     'C18': ['C18', 'C18Range', 'C18Rx'],
-    'C19': ['C19', 'C19Rx'],
-    'C20': ['C20', 'C20Rx'],
+    'C19': ['C19', 'C19Rx', 'C19Parse'],
+    'C20': ['C20', 'C20Rx', 'C20Parse'],
 }
 # `CxxRx` modules restate the property theorems about the regular expressions REGENERATED from the source
 # (the hand-written scanners are proved equal to the regex-engine model on them in lean/SoupVerif/Refine/).
